@@ -195,10 +195,14 @@ func (ex *Exec) runTo(s *State, g int, depth int, stop *ssa.BasicBlock) []*State
 			fr := st.top()
 			blk := fr.Block
 			j := ex.ipdom(fr.Fn, blk)
+			_ = j
 			d := st.depth()
 			gg := st.Cur
 			var feasT, feasF = true, true
-			if st.Prune {
+			// inside a loop iteration past the first, branches are always
+			// checked, so that loops with symbolic conditions terminate
+			inLoop := fr.Visits != nil && fr.Visits[blk.Index] > 0
+			if st.Prune || inLoop {
 				feasT, feasF = ex.feasibleBoth(st, req.cond)
 			}
 			var outs []*State
